@@ -216,7 +216,7 @@ class LargeCandset(Component):
         ri = [rnd.randrange(case["nr"]) for _ in range(n)]
         lk, rk = L["key"].tolist(), R["key"].tolist()
         C = pd.DataFrame({"_id": list(range(5, 5 + n)), "lk": [lk[i] for i in li],
-                          "rk": pd.Series([rk[j] for j in ri], dtype=object),
+                          "rk": [rk[j] for j in ri],
                           "w": [0.5 * (i % 3) for i in range(n)]})
         C.index = pd.Index({"range": list(range(n)), "gaps": [3 * i + 1 for i in range(n)],
                             "dup": [i // 3 for i in range(n)],
